@@ -27,8 +27,8 @@ chk.extra['rule'] = ('systems of 1-3 molecules with 1-2 chains each (shared inpu
                      'all newline conventions (non-trivial: accepted file with noise lines); every third contact list '
                      'reaches the pipeline through the real read_go_map, every fourth result is written with '
                      'write_nonbond_params/write_atomtypes and the files are checked; distinct = distinct protocol line')
-chk.lean(['VermouthProps.C18', 'VermouthProps.C18_Reuse', 'VermouthProps.C18_Files', 'VermouthProps.C18_MapWrite'],
-         'driver_c18')
+chk.lean(['VermouthProps.C18', 'VermouthProps.C18_Reuse', 'VermouthProps.C18_Files', 'VermouthProps.C18_MapWrite',
+          'VermouthProps.C18_Sigma', 'VermouthProps.C18_Order'], 'driver_c18')
 
 import numpy as np
 import networkx as nx
@@ -421,6 +421,19 @@ def go_files(ln, spec, obs):
                                                                                     qenc(float(par['eps']))))
     impl = 'at %s %s nb %s %s sigma %s eps %s' % (enc(at_text), at_err, enc(nb_text), nb_err, enc(sig_ok), enc(eps_ok))
     return fl, impl, nb_text, at_text, errs
+
+
+def residue_orders(obs):
+    """the node keys of every residue whose sub-graph view networkx does not iterate in node order"""
+    mol = obs['mol']
+    rg = make_residue_graph(mol)
+    pos = {k: i for i, k in enumerate(mol.nodes)}
+    out = []
+    for r in rg.nodes:
+        sub = list(rg.nodes[r]['graph'].nodes)
+        if sub != sorted(sub, key=pos.get):
+            out.append(sub)
+    return out
 
 
 def order_sensitive(spec, obs):
@@ -1141,8 +1154,13 @@ for n_, (cid, sp) in enumerate(specs):
     if via_file:
         chk.count('contact_list_read_by_read_go_map')
     ln, impl, obs = run_real(sp, via_file=via_file)
+    obs['order_sensitive'] = order_sensitive(sp, obs)
+    if obs['order_sensitive']:
+        # the result depends on the set order in which networkx iterates a residue with two backbone beads / two
+        # prefix-matching types: the observed order is handed to the model (lean/VermouthModel/C18_Order.lean)
+        ln = line('goord') + ln[len(enc('go')):] + ' ' + enc(residue_orders(obs))
     obs['writer_errs'] = obs['files'] = None
-    if n_ % 2 == 0 and obs['status'] == 'ok':
+    if n_ % 2 == 0 and obs['status'] == 'ok' and not obs['order_sensitive']:
         obs['files'] = go_files(ln, sp, obs)
         obs['writer_errs'] = writer_oracle(obs, obs['files'][2], obs['files'][3])
     lines.append(ln)
@@ -1158,9 +1176,8 @@ for ln, impl, mo, (cid, sp, obs) in zip(lines, impls, models, meta):
     n_sym = sum(1 for c in present if (c[2], c[3], c[0], c[1]) in listed)
     n_one = sum(1 for c in present if (c[2], c[3], c[0], c[1]) not in listed)
     nontriv = n_sym >= 1 and n_one >= 1
-    if order_sensitive(sp, obs):
-        chk.count('excluded_from_model_comparison:subgraph_set_order')
-        mo = None
+    if obs['order_sensitive']:
+        chk.count('compared_with_model_given_observed_subgraph_order')
     chk.count('status_' + obs['status'])
     chk.count('n_emitted=%d' % min(len(obs['nb']), 4))
     chk.count('n_sites=%s' % ('0' if not obs['new'] else '1-5' if len(obs['new']) <= 5 else '6+'))
@@ -1216,6 +1233,11 @@ for i in range(NH):
     hs = [gen_spec(rng, chain_ids=cids and rng.sample(cids, len(cids))) for _ in range(rng.choice([2, 2, 3]))]
     for sp in hs[1:]:
         sp['params'] = hs[0]['params']
+    if rng.random() < 0.12:
+        # a molecule without atoms: add_virtual_sites returns at once, nothing is selected
+        k_ = rng.randrange(len(hs))
+        hs[k_] = dict(hs[k_], molecules=[{'atoms': [], 'edges': []}])
+        chk.count('history_with_empty_molecule')
     hists.append(('hist-%d' % i, mode, hs))
 hl, hmeta = [], []
 for cid, mode, hs in hists:
